@@ -8,13 +8,13 @@ from .. import scen, ops, symnp
 
 META = {
     'level': 'proof',
-    'functions': ['pdesolver.solvePDE', 'source.transientTerm/linearSourceTerm/constantSourceTerm', 'diffusion.diffusionTerm*',
+    'functions': ['pdesolver.solvePDE', 'advection.convectionUpwindTerm* (first-order form)', 'source.transientTerm/linearSourceTerm/constantSourceTerm', 'diffusion.diffusionTerm*',
                   'advection.convectionTerm*', 'advection.convectionUpwindTerm*', 'boundary.boundaryConditionsTerm*', 'mesh.*'],
     'bounds': 'all 9 grid classes; dims 1-D [2],[3], 2-D (2,2),(3,2), 3-D (2,2,2); manufactured solutions p with symbolic coefficients: (E-lin) '
               'affine in every coordinate on ARBITRARY non-uniform faces, (E-quad) quadratic in every coordinate on uniform spacing h (symbolic, '
               'symbolic origin: every resolution and position at once); face-wise symbolic D(x), u(x), cell-wise beta, gamma, alpha, old; Robin '
               'data a, b symbolic per boundary face with c := a dp/dn + b p evaluated at the boundary face (Dirichlet and Neumann are points of it)',
-    'outside': 'the asymptotic statement "error decreases at the order of the scheme for general smooth solutions" is a limit over float solves '
+    'outside': 'upwind consistency in 2-D/3-D is decided for velocity fields of one sign per run (all positive / all negative; mixed signs per face are C05\'s face basis); the asymptotic statement "error decreases at the order of the scheme for general smooth solutions" is a limit over float solves '
                'of growing size: not reachable by a bounded symbolic run. What is decided: every interior row equals the reference finite-volume '
                'balance (1/V) sum +-A_f (u_f p(x_f) - D_f dp/dn(x_f)) + ... built from the independent geometry oracle and the exact p, dp/dn at '
                'face centres, and every boundary row is the Robin relation at the face; midpoint-rule consistency (O(h^2)) + the M-matrix stability '
@@ -52,7 +52,7 @@ def _centres(fs):
     return out
 
 
-def _reference_row(ctx, geo, g, cc, fs, cent, p, Dv, uv):
+def _reference_row(ctx, geo, g, cc, fs, cent, p, Dv, uv, upwind=False, dims=None):
     """(1/V) sum_f +-A_f (u_f p(x_f) - D_f dp/dn(x_f)) for interior cell cc (full index) from the independent oracle"""
     nd = len(cc)
     i0 = tuple(k - 1 for k in cc)
@@ -63,7 +63,16 @@ def _reference_row(ctx, geo, g, cc, fs, cent, p, Dv, uv):
             fidx = tuple(fpos if b == ax else i0[b] for b in range(nd))
             x = [scen.flat(fs[b])[fpos] if b == ax else cent[b][cc[b]] for b in range(nd)]
             met = geo.metric(ax, i0)
-            F = scen.fcomp(uv, ax)[fidx] * p.val(x) - scen.fcomp(Dv, ax)[fidx] * p.d(ax, x) / met
+            uf = scen.fcomp(uv, ax)[fidx]
+            pface = p.val(x)
+            if upwind:
+                # first-order upwind: the face carries the DONOR cell-centre value (the boundary-face value on inflow boundary faces)
+                xlo = list(x); xhi = list(x)
+                lo_ghost = fpos == 0; hi_ghost = fpos == dims[ax]
+                xlo[ax] = x[ax] if lo_ghost else cent[ax][fpos]
+                xhi[ax] = x[ax] if hi_ghost else cent[ax][fpos + 1]
+                pface = ctx.where(uf > 0, p.val(xlo), ctx.where(uf < 0, p.val(xhi), p.val(x)))
+            F = uf * pface - scen.fcomp(Dv, ax)[fidx] * p.d(ax, x) / met
             if cs == 'sph3':
                 rP = geo.centre(0, i0[0]); thP = geo.centre(1, i0[1])
                 if ax == 0:
@@ -79,7 +88,7 @@ def _reference_row(ctx, geo, g, cc, fs, cent, p, Dv, uv):
     return tot
 
 
-def consistency(ctx, g, dims, degree):
+def consistency(ctx, g, dims, degree, scheme='central', usign=0):
     nd = len(dims)
     uniform = degree == 2
     m, fs = scen.mesh(ctx, g, dims, uniform=uniform)
@@ -111,7 +120,8 @@ def consistency(ctx, g, dims, degree):
             f.c[:] = cn.reshape(cshape)
     old = ctx.arr('o', tuple(dims))
     phi = pf.CellVariable(m, old, BC)
-    Dv = scen.facevar(ctx, m, 'D'); uv = scen.facevar(ctx, m, 'u')
+    Dv = scen.facevar(ctx, m, 'D')
+    uv = scen.facevar(ctx, m, 'u') if not usign else (scen.facevar(ctx, m, 'u', 'pos') if usign > 0 else -scen.facevar(ctx, m, 'u', 'pos'))
     beta = scen.cellvar(ctx, m, 'be'); gam = scen.cellvar(ctx, m, 'ga')
     alpha = scen.cellvar(ctx, m, 'al', 'pos'); dt = ctx.real('dt', 'pos')
     # exact samples at all cell centres incl. mirrored ghost centres
@@ -121,19 +131,27 @@ def consistency(ctx, g, dims, degree):
     samp = samp if ctx.sym else samp.astype(float)
     lift = (lambda n: symnp.symarray(samp.ravel())) if ctx.sym else None
     sol = scen.Solver(ctx, lift=lift)
-    pf.solvePDE(phi, [pf.transientTerm(phi, dt, alpha), pf.convectionTerm(uv), -pf.diffusionTerm(Dv), pf.linearSourceTerm(beta),
-                      pf.constantSourceTerm(gam)], externalsolver=sol)
+    if scheme == 'central':
+        pf.solvePDE(phi, [pf.transientTerm(phi, dt, alpha), pf.convectionTerm(uv), -pf.diffusionTerm(Dv), pf.linearSourceTerm(beta),
+                          pf.constantSourceTerm(gam)], externalsolver=sol)
+    else:
+        # upwind scenario: only the convective flux form is at stake (everything else is decided by the central scenario)
+        pf.solvePDE(phi, [pf.convectionUpwindTerm(uv), pf.constantSourceTerm(gam)], externalsolver=sol)
     rows = scen.mat_rows(sol.M)
     xs = scen.flat(samp)
     G = scen.cell_index(dims)
-    tag = 'C02/%s/%s/%s' % (g, 'x'.join(map(str, dims)), 'E-lin' if degree == 1 else 'E-quad')
+    tag = 'C02/%s/%s/%s%s%s' % (g, 'x'.join(map(str, dims)), 'E-lin' if degree == 1 else 'E-quad', '' if scheme == 'central' else '/upwind',
+                               '' if not usign else ('/upos' if usign > 0 else '/uneg'))
     av = np.asarray(alpha.value); bv = np.asarray(beta.value); gv = np.asarray(gam.value)
     for cc in scen.interior_cells(dims):
         r = int(G[cc]); i0 = tuple(q - 1 for q in cc)
         res = scen.matvec_row(rows, r, xs, ctx) - sol.RHS[r]
         ref = av[i0] * (samp[cc] - old[i0]) / dt + bv[i0] * samp[cc] - gv[i0]
-        if degree == 1:
-            ref = ref + _reference_row(ctx, geo, g, cc, fs, cent, p, Dv, uv)
+        if scheme == 'upwind':
+            ref = -gv[i0] + _reference_row(ctx, geo, g, cc, fs, cent, p, _zero_u(ctx, m, Dv), uv, upwind=True, dims=dims)
+            ctx.eq('%s/interior/%s' % (tag, '_'.join(map(str, cc))), res, ref, rel=0.0)
+        elif degree == 1:
+            ref = ref + _reference_row(ctx, geo, g, cc, fs, cent, p, Dv, uv, upwind=False, dims=dims)
             ctx.eq('%s/interior/%s' % (tag, '_'.join(map(str, cc))), res, ref, rel=0.0)
         else:
             # quadratic on uniform spacing: the diffusive flux is still exact (central difference of a quadratic);
@@ -152,7 +170,7 @@ def consistency(ctx, g, dims, degree):
                    rel=0.0)
     # boundary rows: the Robin relation at the face for the exact samples
     for cc in scen.all_cells(dims):
-        if scen.n_out(cc, dims) != 1:
+        if scen.n_out(cc, dims) != 1 or scheme == 'upwind':
             continue
         r = int(G[cc])
         res = scen.matvec_row(rows, r, xs, ctx) - sol.RHS[r]
@@ -203,5 +221,11 @@ def scenarios(tier):
             for deg in (1, 2):
                 T.append({'name': 'consistency/%s/%s/deg%d' % (g, 'x'.join(map(str, dims)), deg), 'fn': 'pv.props.c02:consistency',
                           'params': {'g': g, 'dims': dims, 'degree': deg}, 'timeout': 60, 'validate': 1})
+            # upwind: exact with the donor-centre value, i.e. first-order consistent (remainder u c1 (x_f - x_donor))
+            for us in ((0,) if nd == 1 else (1, -1)):
+                T.append({'name': 'consistency/%s/%s/deg1/upwind%s' % (g, 'x'.join(map(str, dims)), {0: '', 1: '/upos', -1: '/uneg'}[us]),
+                          'fn': 'pv.props.c02:consistency',
+                          'params': {'g': g, 'dims': dims, 'degree': 1, 'scheme': 'upwind', 'usign': us}, 'timeout': 60, 'validate': 1,
+                          'solvers': ('z3new', 'z3', 'cvc5') if nd > 1 else ('z3', 'z3new')})
     T.sort(key=lambda t: -int(np.prod(t['params']['dims'])) - (100 if 'Spherical' in t['name'] else 0))
     return T
